@@ -352,6 +352,15 @@ def _ident(x):
     return x
 
 
+def _union_with_both(t, a, b) -> bool:
+    if t["k"] in ("union", "opt"):
+        idx = {x["i"] for x in M.union_alts(t) if x["k"] == "cls"}
+        if a in idx and b in idx:
+            return True
+    return any(_union_with_both(t[key], a, b) for key in ("of", "key", "val") if isinstance(t.get(key), dict)) or \
+        any(_union_with_both(x, a, b) for key in ("alts", "items", "args") for x in t.get(key, []))
+
+
 def _multi_entry(case, ctx, b, prog, opts):
     from apischema.conversions import Conversion
 
@@ -395,7 +404,10 @@ def _multi_entry(case, ctx, b, prog, opts):
     has_conv = any(conv is not None for _, conv in entries)
     ctx.h("multi_entry:conv" if has_conv else "multi_entry:plain")
     if got != union:
-        ctx.violation({"kind": "multi_entry_definitions_differ", "conv": has_conv}, case,
+        # feature of a known finding: a union holding both classes of a dynamic conversion collapses to one named type
+        collapses = any(e["conv"] and e["what"] == "root" and isinstance(e["conv"][1], int) and
+                        _union_with_both(prog["root"], e["conv"][0], e["conv"][1]) for e in case["defs_entries"])
+        ctx.violation({"kind": "multi_entry_definitions_differ", "conv": has_conv, "union_collapsed_by_conversion": collapses}, case,
                       f"entries {case['defs_entries']}: definitions_schema(all_refs=True) has {sorted(got)}, the union of the inline $defs of the entries has {sorted(union)}; "
                       f"differing bodies: {[k for k in got if k in union and got[k] != union[k]][:4]}")
         return
